@@ -396,6 +396,20 @@ def run(ctx):
                         bad = True
                 else:
                     bad = True
+                # the same call sequence with the writer constructed through its file-name constructor
+                of = os.path.join(base, "byname_%d_%d.bin" % (i, k))
+                pr3 = cxx.run_driver(exe_new, ["Evo", "bin", "bin", "--version", labels[i], "--out-file", of], data, "plain")
+                try:
+                    with open(of, "rb") as fh:
+                        pr3.out = fh.read()
+                    os.unlink(of)
+                except OSError:
+                    pass
+                ctx.ev()
+                ctx.count("write-old.by-name")
+                ctx.case((key, i, "write-by-name", k))
+                if not judge(ctx, co, po, want_o, pr3, sch_old, "chain %s (%s): newest writer (file-name constructor) targeting v%d" % (key, edits, i), {"case_dir": base, "version": i, "values": repr(vals_n)[:1500]}, "write-old-by-name", alternatives=True):
+                    bad = True
         if not bad:
             shutil.rmtree(base, ignore_errors=True)
         return {"chain": key, "edits": edits, "versions": len(chain)}
